@@ -47,6 +47,8 @@ enum Msg {
     Int(i64),
     Bin(Vec<u8>),
     Str(String),
+    /// a message of a concrete type that the drain `#'m` does not take: Quiver expression + model rendering
+    Custom { qv: String, sx: String },
 }
 
 impl Msg {
@@ -55,10 +57,15 @@ impl Msg {
             Msg::Int(_) => Ty::Int,
             Msg::Bin(_) => Ty::Bin,
             Msg::Str(_) => Ty::Str,
+            Msg::Custom { .. } => Ty::Int,
         }
+    }
+    fn is_custom(&self) -> bool {
+        matches!(self, Msg::Custom { .. })
     }
     fn qv(&self) -> String {
         match self {
+            Msg::Custom { qv, .. } => qv.clone(),
             Msg::Int(i) => format!("{i}"),
             Msg::Bin(b) => format!("0x{}", hex(b)),
             Msg::Str(s) => format!("\"{s}\""),
@@ -66,6 +73,7 @@ impl Msg {
     }
     fn sx(&self) -> String {
         match self {
+            Msg::Custom { sx, .. } => sx.clone(),
             Msg::Int(i) => format!("(i {i})"),
             Msg::Bin(b) => format!("(b {})", hex(b)),
             Msg::Str(s) => format!("(s {})", hex(s.as_bytes())),
@@ -109,6 +117,8 @@ enum Src {
     Await(usize),
     Recv { tys: Vec<Ty>, filter: Option<Filter> },
     Timeout(String),
+    /// type-only receive with a hand-written parameter type; `tags` = the message tags it accepts
+    RecvCustom { param: String, tags: Vec<String> },
 }
 
 #[derive(Clone, Debug, PartialEq, Eq, Hash, Serialize, Deserialize)]
@@ -139,7 +149,7 @@ struct Act {
     kind: ActKind,
 }
 
-#[derive(Clone, Debug, PartialEq, Eq, Hash, Serialize, Deserialize)]
+#[derive(Clone, Debug, Default, PartialEq, Eq, Hash, Serialize, Deserialize)]
 struct Scenario {
     sources: Vec<Src>,
     helpers: Vec<Helper>,
@@ -155,6 +165,21 @@ struct Scenario {
     /// and a leaked reference shows up in the executor's refcount check (debug assertion) at completion
     #[serde(default = "yes")]
     report: bool,
+    /// extra top-level lines of the FIRST program update (type aliases …), before the helpers
+    #[serde(default)]
+    prelude: Vec<String>,
+    /// definitions at the start of the SECOND program update (they introduce new concrete types)
+    #[serde(default)]
+    mid_lines: Vec<String>,
+    /// submit as three REPL lines = three program updates: [definitions … p] / [mid_lines, script, Done] / [!p]
+    #[serde(default)]
+    split: bool,
+    /// other processes `c_k = @{ !q_h }` that await helper h too, spawned before p
+    #[serde(default)]
+    co_awaiters: Vec<usize>,
+    /// dummy processes spawned before p (they shift p's pid, i.e. its worker)
+    #[serde(default)]
+    pads: usize,
 }
 
 fn yes() -> bool {
@@ -237,6 +262,7 @@ fn fres_sx(r: &FRes) -> String {
 
 fn src_qv(s: &Src) -> String {
     match s {
+        Src::RecvCustom { param, .. } => format!("#{param}"),
         Src::Await(i) => format!("q{i}"),
         Src::Timeout(ms) => ms.clone(),
         Src::Recv { tys, filter } => {
@@ -266,6 +292,7 @@ fn src_qv(s: &Src) -> String {
 
 fn src_sx(s: &Src) -> String {
     match s {
+        Src::RecvCustom { tags, .. } => format!("(recv ({}) none)", tags.join(" ")),
         Src::Await(i) => format!("(await {})", i + 1),
         Src::Timeout(ms) => format!("(timeout {ms})"),
         Src::Recv { tys, filter } => {
@@ -293,11 +320,16 @@ impl Scenario {
     }
     /// helpers are pids 1..k, (the sink k+1,) p is the last spawned
     fn p_pid(&self) -> usize {
-        self.helpers.len() + 1 + self.uses_sink() as usize
+        self.helpers.len() + 1 + self.uses_sink() as usize + self.co_awaiters.len() + self.pads
     }
     fn source(&self) -> String {
+        self.updates().join("\n")
+    }
+    /// the program as REPL lines (each one is a separate program update)
+    fn updates(&self) -> Vec<String> {
         let mut lines = vec![];
         lines.push("'m = 'int | 'bin | Str['bin]".to_string());
+        lines.extend(self.prelude.iter().cloned());
         lines.push("slow = #'int { | =0 => Ok | [~, 1] __integer_subtract__ ^ }".to_string());
         for (i, h) in self.helpers.iter().enumerate() {
             let val = if h.fails { "[1, 0] __integer_divide__".to_string() } else { format!("{}", helper_value(i)) };
@@ -310,6 +342,12 @@ impl Scenario {
         }
         if self.uses_sink() {
             lines.push("sink = @{ !#'int }".to_string());
+        }
+        for (k, h) in self.co_awaiters.iter().enumerate() {
+            lines.push(format!("c{k} = @{{ !q{h} }}"));
+        }
+        for k in 0..self.pads {
+            lines.push(format!("pad{k} = @{{ {k} }}"));
         }
         let srcs: Vec<String> = self.sources.iter().map(src_qv).collect();
         let n = self.n_sends();
@@ -331,6 +369,8 @@ impl Scenario {
             body.push_str(", 7");
         }
         lines.push(format!("p = @{{ {body} }}"));
+        let first = lines.join("\n");
+        let mut lines: Vec<String> = self.mid_lines.clone();
         for a in &self.script {
             let mut pre = a.sleep.map(|ms| format!("! [{ms}] ")).unwrap_or_default();
             if a.spin > 0 {
@@ -343,13 +383,16 @@ impl Scenario {
         }
         let pre = self.final_sleep.map(|ms| format!("! [{ms}] ")).unwrap_or_default();
         lines.push(format!("{pre}Done p"));
+        let second = lines.join("\n");
+        let mut lines = vec![];
         if let Some(k) = self.after_go {
             lines.push("!p =x1".to_string());
             lines.push(format!("! [10] Go q{k}"));
             lines.push("! [30] Ok".to_string());
         }
         lines.push("!p".to_string());
-        lines.join("\n")
+        let third = lines.join("\n");
+        if self.split { vec![first, second, third] } else { vec![[first, second, third].join("\n")] }
     }
     fn sites_sx(&self) -> String {
         let s0: Vec<String> = self.sources.iter().map(src_sx).collect();
@@ -452,7 +495,7 @@ fn gen_takeover_scenario(r: &mut Rng) -> Scenario {
             script.push(Act { sleep: None, spin: 0, kind: ActKind::Send(gen_msg(r)) });
         }
     }
-    Scenario { sources, helpers: vec![], script, final_sleep: Some(70), p_delay: 0, after_go: None, report: r.chance(1, 2) }
+    Scenario { sources, helpers: vec![], script, final_sleep: Some(70), p_delay: 0, after_go: None, report: r.chance(1, 2), ..Default::default() }
 }
 
 const BOUNDARY_TIMEOUTS: &[&str] = &[
@@ -475,11 +518,7 @@ fn gen_boundary_timeout_scenario(r: &mut Rng) -> Scenario {
         sources.push(Src::Await(0));
     } else {
         let m = gen_msg(r);
-        let ty = match &m {
-            Msg::Int(_) => Ty::Int,
-            Msg::Bin(_) => Ty::Bin,
-            Msg::Str(_) => Ty::Str,
-        };
+        let ty = m.ty();
         sources.push(if r.chance(1, 3) {
             Src::Recv { tys: vec![ty], filter: Some(Filter { slow: *r.pick(&[0u32, 5]), clauses: vec![(Pred::Any, FRes::Ok)] }) }
         } else {
@@ -491,7 +530,7 @@ fn gen_boundary_timeout_scenario(r: &mut Rng) -> Scenario {
         sources.push(Src::Timeout(BOUNDARY_TIMEOUTS[r.usize(BOUNDARY_TIMEOUTS.len())].to_string()));
     }
     // p spins first, so that the message / the result is there when the select starts
-    Scenario { sources, helpers, script, final_sleep: Some(5), p_delay: *r.pick(&[60u32, 150, 400]), after_go: None, report: true }
+    Scenario { sources, helpers, script, final_sleep: Some(5), p_delay: *r.pick(&[60u32, 150, 400]), after_go: None, report: true, ..Default::default() }
 }
 
 /// An awaited process written BEFORE a receive with a (slow) filter; the message arrives first, so the
@@ -528,10 +567,101 @@ fn gen_await_before_filter_scenario(r: &mut Rng) -> Scenario {
     if r.chance(1, 3) {
         script.push(Act { sleep: None, spin: *r.pick(&[0u32, 30]), kind: ActKind::Send(gen_msg(r)) });
     }
-    Scenario { sources, helpers, script, final_sleep: Some(*r.pick(&[5u64, 100])), p_delay: 0, after_go: None, report: r.chance(3, 4) }
+    Scenario { sources, helpers, script, final_sleep: Some(*r.pick(&[5u64, 100])), p_delay: 0, after_go: None, report: r.chance(3, 4), ..Default::default() }
+}
+
+/// The receiver p is loaded (and usually already waiting) by the FIRST program update; the SECOND update
+/// introduces a concrete type that did not exist before — a new tuple type matching p's partial / union /
+/// recursive parameter type, or a process value of a newly compiled function — and sends a message of
+/// that type. The executor's parameter-compatibility tables are recomputed for the whole program and
+/// replaced on every update, so the old receive function must accept it (seeded/C05-4 shipped only the
+/// delta: the old function's set went stale and the message was skipped).
+fn gen_update_scenario(r: &mut Rng) -> Scenario {
+    let fam = r.below(4);
+    let (prelude, param, tags, mid, msg): (Vec<String>, String, Vec<String>, Vec<String>, Msg) = match fam {
+        0 => (vec![], "(x: 'int)".into(), vec!["A".into()], vec![], Msg::Custom { qv: format!("A[x: {}, y: 0x01]", r.range(0, 9)), sx: "(t A)".into() }),
+        1 => (vec![], "W[('int | 'bin)]".into(), vec!["W".into()], vec![], Msg::Custom { qv: "W[0x0102]".into(), sx: "(t W)".into() }),
+        2 => (
+            vec!["'l = Nil | Cons['int, ^]".into()],
+            "'l".into(),
+            vec!["Cons".into(), "Nil".into()],
+            vec![],
+            Msg::Custom { qv: "Cons[1, Cons[2, Nil]]".into(), sx: "(t Cons)".into() },
+        ),
+        _ => (vec![], "(@'int)".into(), vec!["proc".into()], vec!["h = @{ !#'int }".into()], Msg::Custom { qv: "[&h] .0".into(), sx: "(t proc)".into() }),
+    };
+    let mut sources = vec![];
+    if r.chance(1, 3) {
+        sources.push(Src::Recv { tys: vec![Ty::Bin], filter: None });
+    }
+    sources.push(Src::RecvCustom { param, tags });
+    if fam == 3 && sources.len() == 1 {
+        // a select that can only yield a process value makes `r` a process-typed variable, and `[r, …]`
+        // would SEND to it: keep the result type a union
+        sources.push(Src::Recv { tys: vec![Ty::Bin], filter: None });
+    }
+    match r.below(3) {
+        0 => sources.push(Src::Timeout(format!("{}", r.range(40, 90)))),
+        1 => sources.push(Src::Recv { tys: vec![Ty::Int], filter: None }),
+        _ => {}
+    }
+    let mut script = vec![Act { sleep: None, spin: *r.pick(&[0u32, 10, 80]), kind: ActKind::Send(msg) }];
+    if r.chance(1, 2) {
+        script.push(Act { sleep: None, spin: 0, kind: ActKind::Send(Msg::Int(r.range(0, 9))) });
+    }
+    if r.chance(1, 3) {
+        script.insert(0, Act { sleep: None, spin: 0, kind: ActKind::Send(Msg::Str("hi".into())) });
+    }
+    Scenario {
+        sources,
+        script,
+        final_sleep: Some(*r.pick(&[5u64, 120])),
+        p_delay: *r.pick(&[0u32, 0, 30]),
+        report: true,
+        prelude,
+        mid_lines: mid,
+        split: true,
+        ..Default::default()
+    }
+}
+
+/// Two DISTINCT awaiters of one helper that is still running when both await queries are answered; p is
+/// usually the second to ask, and the pads move it to another worker than the helper's (seeded/C05-3
+/// registered only the first awaiter of a target: the second never heard of the completion).
+fn gen_co_awaiter_scenario(r: &mut Rng) -> Scenario {
+    let helpers = vec![Helper { trigger: Trigger::Go, fails: r.chance(1, 3) }];
+    let mut sources = vec![Src::Await(0)];
+    match r.below(4) {
+        0 => sources.push(Src::Timeout("1000000".into())),
+        1 => sources.push(Src::Timeout(format!("{}", r.range(20, 60)))),
+        2 => sources.push(Src::Recv { tys: vec![Ty::Bin], filter: None }),
+        _ => {}
+    }
+    let mut script = vec![Act { sleep: if r.chance(1, 2) { Some(5) } else { None }, spin: *r.pick(&[100u32, 300, 600]), kind: ActKind::Go(0) }];
+    if sources.len() > 1 && r.chance(1, 2) {
+        script.push(Act { sleep: Some(*r.pick(&[1u64, 10])), spin: 0, kind: ActKind::Send(Msg::Bin(vec![255])) });
+    }
+    Scenario {
+        sources,
+        helpers,
+        script,
+        final_sleep: Some(5),
+        p_delay: *r.pick(&[0u32, 10, 40]),
+        report: true,
+        co_awaiters: vec![0; 1 + r.usize(2)],
+        pads: r.usize(3),
+        split: r.chance(1, 4),
+        ..Default::default()
+    }
 }
 
 fn gen_scenario(r: &mut Rng) -> Scenario {
+    if r.chance(1, 8) {
+        return gen_update_scenario(r);
+    }
+    if r.chance(1, 8) {
+        return gen_co_awaiter_scenario(r);
+    }
     if r.chance(1, 6) {
         return gen_takeover_scenario(r);
     }
@@ -620,7 +750,9 @@ fn gen_scenario(r: &mut Rng) -> Scenario {
         }
     }
     let report = !r.chance(1, 6);
-    Scenario { sources, helpers, script, final_sleep, p_delay, after_go, report }
+    // one third of the ordinary scenarios is submitted as three REPL lines (three program updates)
+    let split = r.chance(1, 3);
+    Scenario { sources, helpers, script, final_sleep, p_delay, after_go, report, split, ..Default::default() }
 }
 
 // ---------------------------------------------------------------------------------------------
@@ -655,12 +787,11 @@ fn val_sx(sim: &Sim, v: &Value, bytes: &dyn Fn(&Binary) -> Option<Vec<u8>>) -> S
                     None => "(s ?)".into(),
                 };
             }
-            if fields.is_empty() {
-                return format!("(t {name})");
-            }
-            let fs: Vec<String> = fields.iter().map(|f| val_sx(sim, f, bytes)).collect();
-            format!("(tuple {name} {})", fs.join(" "))
+            // other tuples: the name only (payloads of the custom messages are not compared)
+            let _ = fields;
+            format!("(t {name})")
         }
+        Value::Process(_, _) => "(t proc)".to_string(),
         other => format!("(other {})", other.type_name()),
     }
 }
@@ -768,6 +899,8 @@ struct Outcome {
     end_time: u64,
     /// at a quiescent end without completion: the specification on the final observations
     final_spec: Option<String>,
+    /// idle-time consistency: a finished awaited helper that p was never told about
+    lost_result: Option<String>,
     comparisons: u64,
     budget_exhausted: bool,
 }
@@ -1075,6 +1208,62 @@ impl<'a> Runner<'a> {
         }
     }
 
+    /// `Sim::submit` with instrumented steps (the simulator's own version runs un-observed fair rounds
+    /// while it fetches the process types, during which p may receive and run)
+    fn submit(&mut self, src: &str) -> Result<Option<u64>, String> {
+        let n = self.sim.n_workers();
+        let id = self.sim.env.request_process_types().map_err(|e| format!("{e:?}"))?;
+        let mut types = None;
+        for _ in 0..2000 {
+            self.step(Choice::Env { visible: vec![usize::MAX; n] });
+            for i in 0..n {
+                self.step(Choice::Worker { i, visible: usize::MAX });
+            }
+            match self.sim.env.poll_request(id) {
+                Ok(Some(quiver_environment::RequestResult::ProcessTypes(t))) => {
+                    types = Some(t);
+                    break;
+                }
+                Ok(Some(_)) => return Err("unexpected answer to the process-types request".into()),
+                Ok(None) => {}
+                Err(e) => return Err(format!("{e:?}")),
+            }
+        }
+        let types = types.ok_or("process types not answered")?;
+        let mut repl = self.sim.repl.take().ok_or("no repl")?;
+        let r = repl.evaluate(&mut self.sim.env, src, types);
+        self.sim.repl = Some(repl);
+        r.map_err(|e| format!("{e:?}"))
+    }
+
+    /// The system is idle: no command or event is in flight, nothing is runnable. An awaited helper that
+    /// has finished (ground truth: its result is set on its worker) while p's select still awaits it
+    /// must have been reported to p by now — whatever the schedule was.
+    fn idle_check(&mut self) {
+        if self.out.lost_result.is_some() || self.completed0 || self.fp.is_none() {
+            return;
+        }
+        let st = self.mstate.clone();
+        if !st.contains("res=none") || st.contains("sel=none") {
+            return;
+        }
+        for h in 1..=self.sc.helpers.len() {
+            if st.contains(&format!("({h} none)"))
+                && !self.arrived.contains_key(&h)
+                && let Some(r) = self.helper_result(h)
+            {
+                let r = match r {
+                    Ok(v) => format!("ok {v}"),
+                    Err(c) => format!("err {c}"),
+                };
+                self.out.lost_result = Some(format!(
+                    "helper pid {h} has finished ({r}) and the whole system is idle (t={}), but p's select (awaiting it: {st}) was never told",
+                    self.sim.time_ms
+                ));
+            }
+        }
+    }
+
     fn real_failed(&self) -> Option<String> {
         let ex = self.sim.workers[self.pw].verif_executor();
         match ex.get_process(self.pp).and_then(|p| p.result.as_ref()) {
@@ -1128,9 +1317,9 @@ fn next_choice(sim: &Sim, r: &mut Rng, p: &Policy) -> Choice {
 
 fn run_case(case: &Case, model: &mut Model, log_events: bool) -> Outcome {
     let sc = &case.scenario;
-    let src = sc.source();
+    let updates = sc.updates();
     let n = case.workers;
-    let mut sim = Sim::new(n, case.quantum, qverif::run::builtins(), false).with_repl(HashMap::new());
+    let sim = Sim::new(n, case.quantum, qverif::run::builtins(), false).with_repl(HashMap::new());
     let pp = sc.p_pid();
     let pw = pp % n;
     let a = model.ask(&sc.sites_sx());
@@ -1139,17 +1328,6 @@ fn run_case(case: &Case, model: &mut Model, log_events: bool) -> Outcome {
         out.rejected = Some(format!("model rejected scenario: {a}"));
         return out;
     }
-    let req = match sim.submit(&src) {
-        Ok(Some(id)) => id,
-        Ok(None) => {
-            out.rejected = Some("nocode".into());
-            return out;
-        }
-        Err(e) => {
-            out.rejected = Some(format!("{e:?}"));
-            return out;
-        }
-    };
     let mut rn = Runner {
         sc,
         sim,
@@ -1178,30 +1356,57 @@ fn run_case(case: &Case, model: &mut Model, log_events: bool) -> Outcome {
     }
     let max_steps = 200_000;
     let mut result = None;
-    let mut idle_streak = 0;
     let mut steps = 0;
-    while steps < max_steps {
-        steps += 1;
-        if result.is_none() {
-            result = rn.sim.poll_result(req);
-        }
-        if result.is_some() {
-            break;
-        }
-        if settled(&rn.sim) {
-            idle_streak += 1;
-            if idle_streak > 2 * (n + 1) {
+    // every REPL line is a separate program update; the next one is submitted when the previous has a result
+    let n_updates = updates.len();
+    for (ui, src) in updates.iter().enumerate() {
+        let req = match rn.submit(src) {
+            Ok(Some(id)) => id,
+            Ok(None) => {
+                rn.out.rejected = Some("nocode".into());
+                return std::mem::take(&mut rn.out);
+            }
+            Err(e) => {
+                rn.out.rejected = Some(e);
+                return std::mem::take(&mut rn.out);
+            }
+        };
+        result = None;
+        let mut idle_streak = 0;
+        while steps < max_steps {
+            steps += 1;
+            if result.is_none() {
+                result = rn.sim.poll_result(req);
+            }
+            if result.is_some() {
                 break;
             }
-            rn.step(Choice::Env { visible: vec![usize::MAX; n] });
-            for i in 0..n {
-                rn.step(Choice::Worker { i, visible: usize::MAX });
+            if rn.sim.idle() {
+                rn.idle_check();
             }
-            continue;
+            if settled(&rn.sim) {
+                idle_streak += 1;
+                if idle_streak > 2 * (n + 1) {
+                    break;
+                }
+                rn.step(Choice::Env { visible: vec![usize::MAX; n] });
+                for i in 0..n {
+                    rn.step(Choice::Worker { i, visible: usize::MAX });
+                }
+                continue;
+            }
+            idle_streak = 0;
+            let c = next_choice(&rn.sim, &mut r, &pol);
+            rn.step(c);
         }
-        idle_streak = 0;
-        let c = next_choice(&rn.sim, &mut r, &pol);
-        rn.step(c);
+        if result.is_none() || ui + 1 == n_updates {
+            break;
+        }
+        if let Some(Err(e)) = &result {
+            // an earlier line failed (cannot happen in these programs): report as the program's outcome
+            let _ = e;
+            break;
+        }
     }
     // a few more fair rounds so that late notifications (stale awaits) land, observed the same way
     for _ in 0..3 {
@@ -1279,6 +1484,9 @@ fn judge(case: &Case, o: &Outcome, ev: &mut Ev) -> Vec<Verdict> {
     if o.budget_exhausted {
         ev.hit("inconclusive:step-budget-exhausted");
         return vs;
+    }
+    if let Some(w) = &o.lost_result {
+        vs.push(Verdict { signature: "kind=await-result-lost".into(), what: w.clone(), failing_input_found: true });
     }
     if let Some(fs) = &o.final_spec
         && !fs.starts_with("not-ready")
@@ -1372,10 +1580,19 @@ fn judge(case: &Case, o: &Outcome, ev: &mut Ev) -> Vec<Verdict> {
                     _ => None,
                 })
                 .collect();
+            // messages of the custom types are not taken by the drain `#'m`
+            let custom: Vec<String> = sc
+                .script
+                .iter()
+                .filter_map(|a| match &a.kind {
+                    ActKind::Send(m) if m.is_custom() => Some(m.sx()),
+                    _ => None,
+                })
+                .collect();
             // single sender ⇒ delivery order = script order; `delivered` at completion is a prefix of `all`
             let mut full = expect.clone();
             full.extend(all.iter().skip(c.delivered.iter().filter(|m| *m != "(t Done)").count()).cloned());
-            let full: Vec<String> = full.into_iter().filter(|m| m != "(t Done)").collect();
+            let full: Vec<String> = full.into_iter().filter(|m| m != "(t Done)" && !custom.contains(m)).collect();
             let drained: Vec<String> = fields[1..].iter().filter(|m| *m != "nil").cloned().collect();
             if drained != full {
                 vs.push(Verdict {
@@ -1438,7 +1655,7 @@ fn eff_dur(ms: &str) -> u128 {
 
 /// a hang where the specification says a source is ready at the end
 fn hang_check(case: &Case, o: &Outcome, model: &mut Model) -> Option<Verdict> {
-    if o.completion.is_some() || o.death.is_some() || o.rejected.is_some() || !o.main.starts_with("hang") {
+    if o.completion.is_some() || o.death.is_some() || o.rejected.is_some() || !o.main.starts_with("hang") || o.budget_exhausted {
         return None;
     }
     // at quiescence the model's own state says whether the process is parked with nothing ready; ask
@@ -1523,7 +1740,7 @@ fn main() {
         }
     }
     let n_corpus = cases.len();
-    let n_scen = opts.tier.pick(230u64, 2600);
+    let n_scen = opts.tier.pick(200u64, 2600);
     let n_sched = opts.tier.pick(4u64, 10);
     for i in 0..n_scen {
         let mut r = Rng::for_case(opts.seed ^ 0xC05, i);
@@ -1545,6 +1762,7 @@ fn main() {
             ev.hit("not-run:wall-clock-cap");
             continue;
         }
+        let t_case = std::time::Instant::now();
         let o = match qverif::catch(|| run_case(case, &mut model, false)) {
             Ok(o) => o,
             Err(msg) => {
@@ -1558,6 +1776,17 @@ fn main() {
                 continue;
             }
         };
+        let fam = if !case.scenario.co_awaiters.is_empty() {
+            "co-awaiters"
+        } else if case.scenario.sources.iter().any(|s| matches!(s, Src::RecvCustom { .. })) {
+            "type-from-later-update"
+        } else if case.scenario.split {
+            "ordinary-split"
+        } else {
+            "ordinary"
+        };
+        ev.hit(&format!("family:{fam}"));
+        ev.add(&format!("family-ms:{fam}"), t_case.elapsed().as_millis() as u64);
         let nontrivial = o.rejected.is_none() && o.selects >= 2;
         ev.case(&(serde_json::to_string(case).unwrap()), nontrivial);
         // distribution counters
@@ -1571,6 +1800,7 @@ fn main() {
                 Src::Recv { filter: Some(f), .. } if f.slow > 0 => "src:recv-slow-filter",
                 Src::Recv { .. } => "src:recv-filter",
                 Src::Timeout(_) => "src:timeout",
+                Src::RecvCustom { .. } => "src:recv-type-from-earlier-update",
             });
         }
         ev.add("select-executions", o.selects);
